@@ -441,22 +441,30 @@ def abstract(obs, supplied, final):
     return f"{which}:{int(blank)}:{int(bits['runid'])}"
 
 
-ORDER = ["initial_config", "training_config", "chunks_config", "best_ckpt", "last_ckpt", "train_chunks", "val_chunks"]
+ORDER = ["initial_config", "training_config", "chunks_config", "best_ckpt", "last_ckpt", "train_chunks", "val_chunks",
+         "best_ckpt_v1", "last_ckpt_v1"]
 
 
 def run_history(case):
-    """A two-run history in one scratch directory: run 1 (`case["run1"]`: fresh, chunk framework, chunks
-    kept) and run 2 (`case`: use_existing_chunks=True, same np_chunks_path, new save_ckpt_path)."""
+    """A two-run history in one scratch directory.
+    * `case["reuse"]`: run 1 (`case["run1"]`: fresh, chunk framework, chunks kept) and run 2 (`case`:
+      use_existing_chunks=True, same np_chunks_path, new save_ckpt_path);
+    * `case["same_folder"]`: run A (`case["run1"]`, any fresh run) and run B (`case`, any fresh run with another
+      configuration) into the SAME save_ckpt_path / np_chunks_path."""
     scratch = tempfile.mkdtemp(prefix="verif_c19_")
     try:
         rec1 = run_impl(case["run1"], scratch=scratch, ckpt_name="ckpt")
-        rec2 = run_impl(case, scratch=scratch, ckpt_name="ckpt2", carried=rec1.pop("_refs", None))
+        refs = rec1.pop("_refs", None)
+        if case.get("same_folder"):
+            rec2 = run_impl(case, scratch=scratch, ckpt_name="ckpt", carried=refs, carried_mode="same")
+        else:
+            rec2 = run_impl(case, scratch=scratch, ckpt_name="ckpt2", carried=refs, carried_mode="reuse")
         return rec1, rec2
     finally:
         (getattr(REC, "_rmtree", None) or shutil.rmtree)(scratch, ignore_errors=True)
 
 
-def run_impl(case, scratch=None, ckpt_name="ckpt", carried=None):
+def run_impl(case, scratch=None, ckpt_name="ckpt", carried=None, carried_mode=None):
     """Run the real trainer for `case`; returns the observation record (JSON-able).
     `scratch` given: part of a history (the caller removes it); `carried`: the (supplied, used) configs of
     the earlier run, against which files that run left behind (chunks config.yaml) are abstracted."""
@@ -486,6 +494,8 @@ def run_impl(case, scratch=None, ckpt_name="ckpt", carried=None):
             "chunks_config": os.path.join(chunks_base, "config.yaml"),
             "best_ckpt": os.path.join(ckpt_dir, "best.ckpt"),
             "last_ckpt": os.path.join(ckpt_dir, "last.ckpt"),
+            "best_ckpt_v1": os.path.join(ckpt_dir, "best-v1.ckpt"),
+            "last_ckpt_v1": os.path.join(ckpt_dir, "last-v1.ckpt"),
             "train_chunks": os.path.join(chunks_base, "train_chunks"),
             "val_chunks": os.path.join(chunks_base, "val_chunks"),
         }
@@ -563,9 +573,15 @@ def run_impl(case, scratch=None, ckpt_name="ckpt", carried=None):
 
         def abst(c, obs):
             # the chunks config.yaml of a re-used chunk dir was written by the earlier run
-            if carried is not None and c == "chunks_config":
+            if carried is not None and carried_mode == "reuse" and c == "chunks_config":
                 return abstract(obs, carried[0], carried[1])
-            return abstract(obs, supplied, final)
+            r = abstract(obs, supplied, final)
+            if carried is not None and carried_mode == "same" and r.startswith("other-"):
+                # same-folder history: a file the earlier run left is `stale` (key / run-id bits kept)
+                r0 = abstract(obs, carried[0], carried[1])
+                if not r0.startswith(("other-", "unreadable")) and r0 != "data":
+                    return "stale:" + r0.split(":", 1)[1]
+            return r
 
         def fs_str(st):
             return ",".join(f"{c}={abst(c, st[c])}" for c in ORDER if c in st) or "-"
@@ -611,8 +627,17 @@ def run_impl(case, scratch=None, ckpt_name="ckpt", carried=None):
             got["trainer_config"]["wandb"]["api_key"] = ""
             rec["final"]["training_equals_used"] = got == want
             rec["final"]["training_key_field"] = got_key
-        rec["final"]["best_ckpt"] = os.path.exists(paths["best_ckpt"])
-        rec["final"]["last_ckpt"] = os.path.exists(paths["last_ckpt"])
+        # checkpoints written by THIS run = *.ckpt files whose stored config is the config this run used
+        # (a same-folder history also holds the earlier run's best.ckpt / last.ckpt)
+        mine = []
+        for fn in sorted(os.listdir(ckpt_dir)) if os.path.isdir(ckpt_dir) else []:
+            if fn.endswith(".ckpt") and not os.path.islink(os.path.join(ckpt_dir, fn)):
+                got = read_config_file(os.path.join(ckpt_dir, fn))
+                if got[0] == "ckpt" and got[1] is not None and final is not None and norm_cfg(got[1])[0] == final:
+                    mine.append(fn)
+        rec["final"]["ckpts_of_this_run"] = mine
+        rec["final"]["best_ckpt"] = any(f.startswith("best") for f in mine)
+        rec["final"]["last_ckpt"] = any(f.startswith("last") for f in mine)
         rec["final"]["chunk_files"] = sorted(
             os.path.relpath(os.path.join(dp, f), runroot)
             for r in REC.roots for dp, _d, fn in os.walk(r) for f in fn if f.endswith(".npz"))
@@ -634,7 +659,8 @@ def improved_rounds(logdir, case):
     import csv
 
     out, best = [], None
-    for f in sorted(Path(logdir).rglob("metrics.csv")):
+    vers = sorted(Path(logdir).glob("version_*"), key=lambda p: int(p.name.split("_")[1]))
+    for f in ([vers[-1] / "metrics.csv"] if vers and (vers[-1] / "metrics.csv").exists() else []):   # this run's log
         with io.open(f, newline="") as fh:
             for row in csv.DictReader(fh):
                 v = row.get("val_loss")
@@ -694,7 +720,8 @@ def leak_classes(fs_str):
 def hit_classes(hits, rec):
     case, ck = rec["case"], rec.get("ckpt_name", "ckpt")
     rel = {"initial_config": f"out/{ck}/initial_config.yaml", "training_config": f"out/{ck}/training_config.yaml",
-           "best_ckpt": f"out/{ck}/best.ckpt", "last_ckpt": f"out/{ck}/last.ckpt"}
+           "best_ckpt": f"out/{ck}/best.ckpt", "last_ckpt": f"out/{ck}/last.ckpt",
+           "best_ckpt_v1": f"out/{ck}/best-v1.ckpt", "last_ckpt_v1": f"out/{ck}/last-v1.ckpt"}
     rel["chunks_config"] = "out/chunks/config.yaml" if case["sep_chunks"] else f"out/{ck}/config.yaml"
     inv = {v: k for k, v in rel.items()}
     return {inv.get(h, "other:" + h) for h in hits}
@@ -742,7 +769,7 @@ def flush_pending(chk: Check, verdicts):
 def check_case(chk: Check, case, rec=None):
     """One fresh run, or (case["reuse"]) a two-run history: run 1 is checked as a fresh run, run 2 against
     `traceR` / `fsReuseAt` starting from what run 1 left.  Returns (rec, verdict) of the last run."""
-    if case.get("reuse") and rec is None:
+    if (case.get("reuse") or case.get("same_folder")) and rec is None:
         rec1, rec2 = run_history(case)
         _r, v1 = check_case(chk, case["run1"], rec=rec1)
         chk.tag(f"run1_verdict={v1}")
@@ -757,6 +784,10 @@ def check_case(chk: Check, case, rec=None):
             return flags_line(op, ver, case["run1"], rec["rounds1"]) + " " + flags_line("", "", case, rounds).strip()
         lines = [l2("tracer", "repaired"), l2("fsr", "repaired"), l2("tracer", "asis"), l2("fsr", "asis"),
                  l2("tracer", "keyfixed"), l2("fsr", "keyfixed")]
+    elif case.get("same_folder"):
+        def l3(op, ver):
+            return flags_line(op, ver, case["run1"], rec["rounds1"]) + " " + flags_line("", "", case, rounds).strip()
+        lines = [l3("traces", "repaired"), l3("fss", "repaired"), l3("traces", "asis"), l3("fss", "asis")]
     else:
         lines = [flags_line("trace", "repaired", case, rounds), flags_line("fs", "repaired", case, rounds),
                  flags_line("trace", "asis", case, rounds), flags_line("fs", "asis", case, rounds)]
@@ -766,12 +797,14 @@ def check_case(chk: Check, case, rec=None):
     rep_t, asis_t = out[0].split()[1:], out[2].split()[1:]
     rep_fs, asis_fs = [s.strip() for s in out[1][3:].split("|")], [s.strip() for s in out[3][3:].split("|")]
     key = (case["model"], case["fw"], case["wandb"], case["ckpt"], case["structured"], case["delete"],
-           case["sep_chunks"], case["epochs"], bool(case.get("reuse")))
+           case["sep_chunks"], case["epochs"], bool(case.get("reuse")), bool(case.get("same_folder")),
+           json.dumps(case.get("run1"), sort_keys=True) if case.get("same_folder") else None)
     chk.case(key, {"case": case, "impl_trace": rec["trace"], "crash_points_scanned": len(rec["boundaries"]),
                    "wall_s": rec["wall"]},
              tags=[f"model={case['model']}", f"fw={case['fw']}", f"wandb={case['wandb']}", f"ckpt={case['ckpt']}",
                    f"structured={case['structured']}", f"delete={case['delete']}", f"epochs={case['epochs']}",
-                   "mode=" + ("reuse_chunks(run 2)" if case.get("reuse") else "fresh")])
+                   "mode=" + ("reuse_chunks(run 2)" if case.get("reuse") else
+                             "same_folder(run B)" if case.get("same_folder") else "fresh")])
     chk.extra["crash_points_scanned"] = chk.extra.get("crash_points_scanned", 0) + len(rec["boundaries"])
     if rec["hook_errors"]:
         raise RuntimeError(f"recorder hook failed: {rec['hook_errors'][:3]}")
@@ -833,6 +866,25 @@ def mk_reuse(rng, model, wandb, ckpt, structured, delete, epochs=1):
     return c
 
 
+def mk_same(rng, a, b):
+    """Two-run history into the same folder: run A = `a`, run B = `b` (both fresh runs, different seeds hence
+    different configurations; they must agree on where the chunk dir lives)."""
+    a, b = dict(a), dict(b)
+    b["sep_chunks"] = a["sep_chunks"]
+    if b["seed"] == a["seed"]:
+        b["seed"] += 1
+    b["same_folder"] = True
+    b["run1"] = a
+    return b
+
+
+def rand_case(rng, **kw):
+    c = mk(rng.choice(MODELS), rng.choice(FWS), rng.random() < 0.5, rng.random() < 0.5, rng.random() < 0.5,
+           rng.random() < 0.5, sep=rng.random() < 0.7, seed=rng.randrange(2**31))
+    c.update(kw)
+    return c
+
+
 def main(chk: Check):
     chk.build_and_audit()
     import_repo()
@@ -847,6 +899,8 @@ def main(chk: Check):
             cases.append(mk(m, fw, w, c, s, d, sep=rng.random() < 0.7, seed=rng.randrange(2**31)))
         for m, w, c, s, d in itertools.product(MODELS, [0, 1], [0, 1], [0, 1], [0, 1]):   # grid x reuse
             cases.append(mk_reuse(rng, m, w, c, s, d))
+        for m, fw, w, c, s, d in itertools.product(MODELS, FWS, [0, 1], [0, 1], [0, 1], [0, 1]):   # grid x same folder
+            cases.append(mk_same(rng, rand_case(rng), mk(m, fw, w, c, s, d, seed=rng.randrange(2**31))))
         for _ in range(8):   # more than one validation epoch: best.ckpt only when the loss improved
             cases.append(mk(rng.choice(MODELS), rng.choice(FWS), rng.random() < 0.5, 1, rng.random() < 0.5,
                             rng.random() < 0.5, sep=rng.random() < 0.7, epochs=rng.choice([2, 3]),
@@ -871,6 +925,15 @@ def main(chk: Check):
         for m in ms2:
             cases.append(mk_reuse(rng, m, rng.random() < 0.5, rng.random() < 0.5, rng.random() < 0.5, 1))
         cases.append(mk_reuse(rng, rng.choice(MODELS), rng.random() < 0.5, rng.random() < 0.5, rng.random() < 0.5, 0))
+    if not chk.thorough:
+        # same-folder histories: B into A's folder, different model types / flags; A leaves checkpoints and chunks
+        # in the first, nothing but configs in the second, random in the third
+        ma, mb = rng.sample(MODELS, 2)
+        cases.append(mk_same(rng, rand_case(rng, model=ma, fw="torch_dataset_np_chunks", ckpt=True, delete=False),
+                             rand_case(rng, model=mb, ckpt=True)))
+        cases.append(mk_same(rng, rand_case(rng, model=mb, fw="torch_dataset", ckpt=False),
+                             rand_case(rng, model=ma, fw="torch_dataset_np_chunks")))
+        cases.append(mk_same(rng, rand_case(rng), rand_case(rng, epochs=rng.choice([1, 2]))))
     verdicts = {}
     for i, case in enumerate(cases):
         rec, verdict = check_case(chk, case)
